@@ -133,6 +133,7 @@ Fixpoint seq_accept (l : obs_level) (c : gcfg) (univ : list Z) (g : grp) (steps 
   | [] => true
   | s :: rest => let '(g', o) := model_step l c univ g (st_op s) (st_faults s) in
                  existsb (Z.eqb (key_of (st_op s))) univ      (* a well-formed case: the key is one of the universe *)
+                 && (0 <? g_n c)                              (* ... and the group has at least one worker *)
                  && sobs_match (st_cancel s) o (st_obs s) && seq_accept l c univ g' rest
   end.
 
@@ -171,6 +172,8 @@ Definition note_worker (ws : list (Z * Z)) (k : Z) (w : option Z) : list (Z * Z)
 Definition step_holds (l : obs_level) (univ : list Z) (pc : list (option val)) (ps : list val) (ws : list (Z * Z)) (s : sstep) : bool :=
   let o := st_obs s in let k := key_of (st_op s) in
   worker_ok ws k (ob_worker o) &&
+  (* every key has a worker: no call panics (repair 21: locHash reduces before taking the absolute value) *)
+  negb (match ob_res o with RPanic => true | _ => false end) &&
   (* every callback and every cache write of the operation is about the operation's key *)
   forallb (fun e => ev_key e =? k) (ob_events o)
   (* keys other than the operation's keep their store value *)
